@@ -137,6 +137,34 @@ def run(ctx: Any, prog: Program) -> None:
     ctx.shape('C19.H4', ok, fs, gf, 'FileSystemChain._get_file must try self.systems in list order and return on the first member that has the file', func='FileSystemChain._get_file', text='first hit in list order')
     ok = 'os.path.join(prefix, name)' in ast.unparse(gf)
     ctx.shape('C19.H4', ok, fs, gf, 'the member prefix must be joined in front of the looked-up name', func='FileSystemChain._get_file', text='prefix joined on lookup')
+    # every loop over the members, in any chain method: the name handed to a member is prefix + the caller's name, built afresh per member
+    n_loops = 0
+    for mname, mfn in ch.items():
+        for lp in [l for l in walk_no_nested(mfn) if isinstance(l, ast.For) and ast.unparse(l.iter) == 'self.systems' and isinstance(l.target, ast.Tuple) and len(l.target.elts) == 2]:
+            member, pref = (dotted(e) for e in lp.target.elts)
+            n_loops += 1
+            outer_defs = {a.arg for a in mfn.args.args} | {t.id for n in walk_no_nested(mfn) if isinstance(n, ast.Assign) and not any(n is x for x in ast.walk(lp)) for t in n.targets if isinstance(t, ast.Name)}
+            prefixed: Set[str] = set()
+            carried = None
+            for n in ast.walk(lp):
+                if isinstance(n, ast.Assign):
+                    reads = {x.id for x in ast.walk(n.value) if isinstance(x, ast.Name)}
+                    for t in n.targets:
+                        if isinstance(t, ast.Name):
+                            if pref in reads or reads & prefixed:
+                                prefixed.add(t.id)
+                                if t.id in reads and t.id in outer_defs:
+                                    carried = n
+            ctx.check('C19.H4', carried is None, fs, carried or lp, f'FileSystemChain.{mname}: `{ast.unparse(carried)[:80] if carried else ""}` re-assigns the looked-up name inside the member loop, so the prefix of one member '
+                      'is still in front of the name when the next member is asked (later members miss their files, root-mounted ones report foreign names)', func=f'FileSystemChain.{mname}', text=f'{mname}: name not carried across members')
+            for c in ast.walk(lp):
+                if isinstance(c, ast.Call) and isinstance(c.func, ast.Attribute) and dotted(c.func.value) == member and c.args:
+                    a0 = c.args[0]
+                    names = {x.id for x in ast.walk(a0) if isinstance(x, ast.Name)}
+                    ok = pref in names or bool(names & prefixed)
+                    ctx.check('C19.H4', ok, fs, c, f'FileSystemChain.{mname} asks a member with `{ast.unparse(a0)[:60]}`, which does not contain that member\'s prefix', func=f'FileSystemChain.{mname}', text=f'{mname}: {member}.{c.func.attr} gets the prefixed name')
+    if n_loops < 2:
+        raise AnalysisError(f'only {n_loops} loops over self.systems found in FileSystemChain (2 confirmed by hand)')
     ads = ch['add_sys']
     src = ast.unparse(ads)
     prio_param = any(a.arg == 'priority' for a in ads.args.args + ads.args.kwonlyargs)
@@ -188,6 +216,9 @@ def run(ctx: Any, prog: Program) -> None:
 
 
 MUTANTS = [
+    {'id': 'chain_exists_carries_prefix', 'file': 'filesys.py', 'find': "    def _get_file(self, name: str) -> File[Self]:\n        \"\"\"Search for a file on each filesystem in turn.\"\"\"", 'replace': "    def _file_exists(self, name: str) -> bool:\n        for sys, prefix in self.systems:\n            if prefix:\n                name = os.path.join(prefix, name).replace('\\\\', '/')\n            if sys._file_exists(name):\n                return True\n        return False\n\n    def _get_file(self, name: str) -> File[Self]:\n        \"\"\"Search for a file on each filesystem in turn.\"\"\"", 'expect': 'C19.H4'},
+    {'id': 'chain_exists_fresh_name', 'file': 'filesys.py', 'find': "    def _get_file(self, name: str) -> File[Self]:\n        \"\"\"Search for a file on each filesystem in turn.\"\"\"", 'replace': "    def _file_exists(self, name: str) -> bool:\n        for sys, prefix in self.systems:\n            full = os.path.join(prefix, name).replace('\\\\', '/')\n            if sys._file_exists(full):\n                return True\n        return False\n\n    def _get_file(self, name: str) -> File[Self]:\n        \"\"\"Search for a file on each filesystem in turn.\"\"\"", 'expect': None},
+    {'id': 'chain_lookup_without_prefix', 'file': 'filesys.py', 'find': "                file_info = sys._get_file(full_name)", 'replace': "                file_info = sys._get_file(name)", 'expect': 'C19.H4'},
     {'id': 'zip_lookup_unfolded', 'file': 'filesys.py', 'find': "        return name.replace('\\\\', '/').casefold() in self._name_to_info", 'replace': "        return name.replace('\\\\', '/') in self._name_to_info", 'expect': 'C19.H1'},
     {'id': 'vpk_index_keeps_backslashes', 'file': 'filesys.py', 'find': "            file.filename.replace('\\\\', '/').casefold(): file", 'replace': "            file.filename.casefold(): file", 'expect': 'C19.H1'},
     {'id': 'virtual_walk_tests_original_name', 'file': 'filesys.py', 'find': "        for key, (filename, data) in self._mapping.items():\n            if key.startswith(folder):", 'replace': "        for key, (filename, data) in self._mapping.items():\n            if filename.startswith(folder):", 'expect': 'C19.H1'},
